@@ -1,6 +1,6 @@
 // C16 — handshake: version negotiation, advertised capabilities, client state machine.
 //
-// Part A (server_part.go): raw peers send initialize with every class of protocolVersion to the seven server
+// Part A (server_part.go, reghist.go): raw peers send initialize with every class of protocolVersion to the seven server
 // configurations under every registration combination and judge version, serverInfo and capability set.
 // Part B (hist.go, histchild.go, model.go, recserver.go, recchild.go): seeded call histories on the three
 // client kinds against library-free recording servers; a child process per client kind executes and records,
@@ -15,6 +15,7 @@ import (
 	"os"
 	"path/filepath"
 	"sort"
+	"strings"
 	"sync"
 	"time"
 
@@ -89,7 +90,11 @@ func clientPart(r *vh.Run, ck string, n int, st *judgeStats) {
 		}
 		stderr := res.Stderr()
 		wit := map[string]interface{}{"client": ck, "child": res.Describe(), "crash_line": vh.CrashLine(stderr), "first_library_frame": vh.FirstLibFrame(stderr), "histories_in_flight": inflight, "stderr_file": res.StderrPath}
-		if res.TimedOut {
+		if !res.TimedOut && strings.Contains(vh.CrashLine(stderr), "recServer: listen") {
+			// the recording server of the harness got no listening port (loopback ports of a shared machine in
+			// TIME_WAIT): nothing was learnt about the client
+			r.Inconclusive(fmt.Sprintf("client %s: the history child could not open a listening port (%s); %d histories in flight, %d not started", ck, vh.CrashLine(stderr), len(inflight), len(next)))
+		} else if res.TimedOut {
 			r.Inconclusive(fmt.Sprintf("client %s: history child exceeded its watchdog (%s); %d histories in flight, %d not started; goroutine dump in %s", ck, res.Describe(), len(inflight), len(next), res.StderrPath))
 		} else {
 			frame := vh.FirstLibFrame(stderr)
@@ -171,10 +176,15 @@ func main() {
 	r.Finish("Part A: 7 server configurations x 8 registration combinations {tool,prompt,resource} x version classes "+
 		"{both supported, older/newer dates, 2025-06-18, empty, 10 KiB, non-ASCII, space/newline/NUL variants, prefixes, seeded random ascii/unicode/date-like/one-character mutations, "+
 		"non-string types, absent, non-object params}, each on a fresh raw session with a seeded random (Unicode) server name/version; registration between two sessions in both orders; "+
-		"on the Streamable configurations 8 parallel raw peers handshaking while a prompt and a resource are registered. "+
+		"registration HISTORIES on one server with many handshakes: 16 hand-written corner histories (a tool replaced by a first prompt / resource / multi-content resource / template, several or all tools replaced at once, "+
+		"tool swapped for tool, names registered again, unknown / duplicate / no names unregistered, removed and registered again, back to an earlier item count, zero tools from the start, handshakes with nothing in between), "+
+		"each once per handshake flavour {fresh raw session closed again, raw sessions kept open side by side, initialize again on the open session, the library's own client}, plus seeded random histories over "+
+		"{RegisterTool, UnregisterTools (one, two, all, unknown, mixed, none), RegisterPrompt, RegisterResource, RegisterResources, RegisterResourceTemplate, count-preserving replacement, the four handshake flavours}; "+
+		"every successful initialize answer is compared in both directions with the reference registry (four name sets) as of that step; "+
+		"on the Streamable configurations 8 parallel raw peers handshaking while a prompt and a resource are registered (every second round each of them replaces a tool that is unregistered just before). "+
 		"Part B: hand-written corner histories plus seeded random histories (<= 10 steps) over {Initialize x server behaviour {healthy, healthy without session id, JSON-RPC error, not-JSON answer, odd result, down}, "+
 		"7 operations, GetState, Close} on Streamable, legacy SSE and stdio clients against library-free recording servers (stdio: recording child process), judged step by step against the two-state reference machine. "+
-		"Distinct = (part, configuration or client kind, version class / registration state / (step, model state, phase, behaviour)) whose oracle was actually evaluated.",
+		"Distinct = (part, configuration or client kind, version class / registration state / (what happened to the registry since the last handshake, handshake flavour, expected capability set, zero tools or not) / (step, model state, phase, behaviour)) whose oracle was actually evaluated.",
 		[]string{
 			"the supported set is {2024-11-05, 2025-03-26} (library constants); the latest is 2025-03-26",
 			"for non-string protocolVersion / non-object params any error answer is conforming; only a success with an unsupported version is refuted",
@@ -184,5 +194,9 @@ func main() {
 			"the Streamable client's background listening-stream GET after a successful handshake is attributed to that handshake (the recorder waits until the server has seen it; should it arrive later it is still not charged to the later step); three quarters of the Streamable histories disable it",
 			"operations after a successful handshake are not required to succeed (counted only); refusing them as not-initialized is refuted",
 			"interleavings of the concurrent-registration scenario are sampled, not enumerated",
+			"'registered at that time' = the name sets after replaying RegisterTool/UnregisterTools/RegisterPrompt/RegisterResource(s)/RegisterResourceTemplate in program order (all calls return before the handshake is sent); prompts and resources cannot be removed through the public API, tools can",
+			"a server on which only resource templates (no resource) are registered may or may not advertise the resources capability (the statement says 'resource'); both are accepted and counted",
+			"a further initialize on a session that is already open may be refused with an error (counted); when it is answered with a result, that result is judged like any other",
+			"the return value of UnregisterTools (error for unknown / no names) is counted, not judged",
 		})
 }
